@@ -474,8 +474,14 @@ func genC01(t *rapid.T) model.Case {
 			d = append(d, mutDesc{Op: "garbage"})
 			patch = false
 		}
-		ops = append(ops, model.Op{Kind: "raw", Peer: 0, Seq: seq, Raw: hex.EncodeToString(raw), PatchSEID: patch, Sess: 0,
-			Note: kind, Extra: map[string]any{"mut": d}})
+		rop := model.Op{Kind: "raw", Peer: 0, Seq: seq, Raw: hex.EncodeToString(raw), PatchSEID: patch, Sess: 0,
+			Note: kind, Extra: map[string]any{"mut": d}}
+		if kind != "est" && rapid.IntRange(0, 7).Draw(t, "flood") == 0 {
+			// the same datagram many times over (a peer gone wild, or a replaying middle box): whatever a single
+			// copy costs must not add up to a stuck association (full queue, exhausted table)
+			rop.N = rapid.SampledFrom([]int{101, 130, 260}).Draw(t, "copies")
+		}
+		ops = append(ops, rop)
 		descs = append(descs, d)
 	}
 	conf["post"] = true
@@ -534,7 +540,13 @@ func runC01(c model.Case, ev *Ev) error {
 		if len(o.Sent) > 1 && o.Sent[1] == message.MsgTypeSessionReportResponse {
 			intact = false // a report response may legitimately end the session without any answer
 		}
-		for _, ans := range o.Extra {
+		if len(o.Flood) > op.N-1 && op.N > 1 {
+			return fmt.Errorf("op %d: %d datagrams came back for %d copies of the injected datagram %s", i, len(o.Flood), op.N-1, op.Raw)
+		}
+		if op.N > 1 {
+			ev.Label("flood")
+		}
+		for _, ans := range append(append([][]byte(nil), o.Flood...), o.Extra...) {
 			am, err := message.Parse(ans)
 			if err != nil {
 				intact = false
